@@ -234,6 +234,16 @@ def bounded_real_find(rng, tier):
                         bundles = list(fs.find(s, e, no_files_error=False, bundle=2))
                         ok = [f.path for bb in bundles for f in bb] == [g[2] for g in sorted(got)] or \
                             sorted(f.path for bb in bundles for f in bb) == sorted(g[2] for g in got)
+                    if ok and want:
+                        # bundling by a time frequency only partitions the same ordered sequence; every bundle lies in one bin
+                        for freq, width in (("6h", timedelta(hours=6)), ("1D", timedelta(days=1))):
+                            tb = list(fs.find(s, e, no_files_error=False, bundle=freq))
+                            flat = [(f.times[0], f.times[1]) for bb in tb for f in bb]
+                            if flat != [g[:2] for g in sorted(got)] or any(len(bb) == 0 for bb in tb):
+                                ok = False
+                            origin = datetime(2000, 1, 1)
+                            if any(len({(f.times[0] - origin) // width for f in bb}) != 1 for bb in tb):
+                                ok = False
                     if not ok:
                         failures.append({"template": tpl, "files": {k: [str(v[0]), str(v[1])] for k, v in files.items()},
                                          "query": [str(s), str(e)], "got": [g[2] for g in got], "want": [w_[2] for w_ in want]})
